@@ -22,7 +22,9 @@ Theorem C13_float_weight_promotes : forall h pos w k d, kind_dt k = Some d -> dt
 Proof. exact float_weight_promotes. Qed.
 Print Assumptions C13_float_weight_promotes.
 
-Theorem C13_division_promotes : forall h c k d, kind_dt k = Some d -> dt_is_int (y_dt (fst (dstep h (DDiv c k)))) = false.
+(** (a negative divisor is refused before anything is touched - /repo fix 24862f2 - hence the guard) *)
+Theorem C13_division_promotes : forall h c k d, kind_dt k = Some d -> Qcltb c 0 = false ->
+  dt_is_int (y_dt (fst (dstep h (DDiv c k)))) = false.
 Proof. exact division_promotes. Qed.
 Print Assumptions C13_division_promotes.
 
